@@ -24,6 +24,7 @@ package netflow9
 
 import (
 	"encoding/binary"
+	"encoding/hex"
 	"encoding/json"
 	"hash/fnv"
 	"io/ioutil"
@@ -46,7 +47,7 @@ type Data struct {
 
 // TemplatesShard represents a shard
 type TemplatesShard struct {
-	Templates map[uint32]Data
+	Templates map[string]Data
 	sync.RWMutex
 }
 type memCacheDisk struct {
@@ -72,13 +73,13 @@ func GetCache(cacheFile string) MemCache {
 
 	m := make(MemCache, shardNo)
 	for i := 0; i < shardNo; i++ {
-		m[i] = &TemplatesShard{Templates: make(map[uint32]Data)}
+		m[i] = &TemplatesShard{Templates: make(map[string]Data)}
 	}
 
 	return m
 }
 
-func (m MemCache) getShard(id uint16, addr net.IP) (*TemplatesShard, uint32) {
+func (m MemCache) getShard(id uint16, addr net.IP) (*TemplatesShard, string) {
 	b := make([]byte, 2)
 	binary.BigEndian.PutUint16(b, id)
 	key := append(addr, b...)
@@ -87,7 +88,9 @@ func (m MemCache) getShard(id uint16, addr net.IP) (*TemplatesShard, uint32) {
 	hash.Write(key)
 	hSum32 := hash.Sum32()
 
-	return m[uint(hSum32)%uint(shardNo)], hSum32
+	// the hash only selects the shard; within it templates are keyed by the full
+	// exporter address and template id, so two exporters can never share an entry
+	return m[uint(hSum32)%uint(shardNo)], hex.EncodeToString(key)
 }
 
 func (m *MemCache) insert(id uint16, addr net.IP, tr TemplateRecord) {
